@@ -6,10 +6,15 @@ emit('C08', '''C08 — No datagram from an outsider can crash a node.
    classify a datagram are total functions in the model (C16) and are run against the real parser
    for every length 0..80 and every first byte in every receiver state (py/props/c08.py); a panic
    of the real code shows up there as a `panic` result line the model does not produce.''',
- ['Base','Core','CoreProofs','Conn','PeerCrypto','Node','NodeProofs','Dissect','DissectProofs'],
+ ['Base','Core','CoreProofs','Conn','PeerCrypto','NodeInfo','Table','Node','NodeProofs','Dissect','DissectProofs','InitProofs','InvProofs'],
  [('object_drops','NodeProofs.v','pc_handle_unverifiable','at every stage of a connection object: ordinary error (never the Panic result), object unchanged, no reply'),
   ('node_no_residue','NodeProofs.v','unverifiable_no_residue','node level, any source (unknown, pending, established): peers, pending handshakes, own addresses, table, schedule unchanged and nothing emitted'),
   ('node_sequence','NodeProofs.v','unverifiable_sequence','and so for every sequence of such datagrams'),
+  ('no_consumed_key_unwrap','InvProofs.v','pc_no_panic11','for EVERY wire value - replays of genuine handshake messages included - a connection object whose handshake state satisfies the invariant (waiting for a pong implies still holding the ECDH key) never reaches the unwrap of a consumed key'),
+  ('invariant_preserved','InvProofs.v','pinv_preserved','that invariant survives every outcome that is neither fatal nor a panic'),
+  ('invariant_preserved_init','InvProofs.v','ecdh_inv_preserved','(the same at the level of the handshake state machine)'),
+  ('invariant_new','InvProofs.v','pinv_new','new connection objects satisfy it'),
+  ('fatal_object_deleted','InvProofs.v','pending_fatal_deleted','and the cooperating site at node level: a fatal handshake error from a pending object removes that object in the same step, so a state that violates the invariant never survives (a change that makes the pong decryption error non-fatal breaks exactly this pair)'),
   ('core_never_panics','CoreProofs.v','decrypt_never_panics','the datagram decryption path has no panic result for any datagram (after the fixes of F1 and F2)'),
   ('core_junk','NodeProofs.v','core_decrypt_junk','a datagram that is not a genuine seal leaves the crypto core untouched'),
   ('frame_never_panics','DissectProofs.v','frame_no_panic','Ethernet dissection never panics'),
